@@ -85,7 +85,9 @@ def judge(case):
         if path == "params":
             text = P.to_ical(sorted=case.get("sorted", True)).decode("utf-8")
             ptext = text
-            got = as_plain(Parameters.from_ical(text))
+            pobj = Parameters.from_ical(text)
+            got = as_plain(pobj)
+            again = lambda: Parameters.from_ical(text)
         elif path == "line":
             cl = Contentline.from_parts("X-PROP", P, vText("v"), sorted=case.get("sorted", True))
             line = str(cl)
@@ -99,6 +101,8 @@ def judge(case):
                 fails.append(Failure("C08.quoting", "emitted-line-not-rfc-grammar", f"{line!r}: {e}"[:300]))
             name, params, value = Contentline.from_ical(cl.to_ical()).parts()
             got = as_plain(params)
+            pobj = params
+            again = lambda: Contentline.from_ical(cl.to_ical()).parts()[1]
             if name != "X-PROP" or value != "v":
                 fails.append(Failure("C08.roundtrip-line", "line-name-or-value-differs", f"{line!r} -> {name!r} {value!r}"[:300]))
         else:
@@ -125,6 +129,8 @@ def judge(case):
                                      f"pm={pm!r} errors={ev2.errors!r} got={v!r}"[:400]))
                 return fails
             got = as_plain(v.params)
+            pobj = v.params
+            again = lambda: Event.from_ical(raw)["x-prop"].params
             if str(v) != "v" or str(ev2.get("summary")) != "sentinel" or len(ev2) != 2:
                 fails.append(Failure("C08.roundtrip-component", "value-or-neighbour-differs", f"{raw!r}"[:300]))
         if path == "params":
@@ -135,6 +141,15 @@ def judge(case):
                                          f"text={ptext!r} ref={ref_map(toks)!r} exp={exp!r}"[:400]))
             except LineSyntaxError as e:
                 fails.append(Failure("C08.quoting", "emitted-line-not-rfc-grammar", f"{ptext!r}: {e}"[:300]))
+        # history: what a caller does to one parsed parameter map is invisible to the next parse of the same text
+        for k in list(pobj.keys()):
+            if isinstance(pobj[k], list):
+                pobj[k].reverse()
+                pobj[k].append("scribble")
+        pobj["X-SCRIBBLE"] = ["1", "2"]
+        got2 = as_plain(again())
+        if got2 != got:
+            fails.append(Failure(f"C08.roundtrip-{path}", f"{path}-second-parse-sees-edits-to-the-first-result", f"pm={pm!r} first={got!r} second={got2!r}"[:400]))
         if got != exp:
             kind = "names-differ" if set(got) != set(exp) else "values-differ"
             for k in exp:
